@@ -17,6 +17,12 @@ panqec code and compared with reference code written here:
   edge weights of the live matcher), every `update_channel_probs` argument and
   the `channel_probs` in force at every ldpc `decode` (spy around BpOsdDecoder)
   and `update_probabilities` for every (correction bit, qubit).
+* session: ONE code object, ONE error rate, several DISTINCT models evaluated one
+  after the other in one process (same deformation name with different axis
+  kwargs, directions that differ only beyond the 4th decimal, with / without
+  deformation, forward and reversed order): every model is judged by the same
+  absolute oracle (distribution, weights, measure probe of generate), so a
+  model that inherits an earlier model's cached distribution is reported.
 """
 import hashlib
 import itertools
@@ -52,7 +58,9 @@ RULE = ('sample: one sub-case per (class, size, deformation config, p, r); disti
         'non-trivial when 0 < p < 1 and at least two outcomes have positive probability (the variate map has an '
         'interior breakpoint), measured from the reference rows. priors: one sub-case per (class, size, '
         'deformation, p, r); non-trivial when the X-flip and Z-flip marginals differ on at least one qubit or '
-        'between qubits (a swapped prior would be visible)')
+        'between qubits (a swapped prior would be visible). session: one sub-case per (class, size, p, order, '
+        'position in the session); non-trivial when an earlier model of the same session (same code object, same '
+        'p) has different reference rows, i.e. a stale per-(model, code, p) cache would be visible')
 ASSUMPTIONS = [
     'variates are consumed in qubit-index order (one rng.random() per qubit)',
     'BSF convention [X block | Z block]: (1,0)=X, (0,1)=Z, (1,1)=Y',
@@ -87,7 +95,10 @@ BOUNDS = {
               'pair_deviations': 'n<=4: all 4^n; else all singles for every (p,r), all pairs for 2 directions '
                                  'per (config, p) when n<=30, index-adjacent pairs when n>30',
               'bposd': 'all 67 directions when n<=12, 7 directions when n>12; up to 4 syndromes; '
-                       'channel_update in {False, True}; CSS object and deformed (non-CSS) object'},
+                       'channel_update in {False, True}; CSS object and deformed (non-CSS) object',
+              'session': '8 classes (one per deformation family, all axis kwargs) x p in {0.25, 1.0}; 4 directions '
+                         '(two pairs differing only beyond the 4th decimal) x every deformation config, forward '
+                         'and reversed order, each order on one code object; dyadic grid 2^4'},
     'thorough': {'p': P_LIST, 'directions': 'simplex grid denominator 10 (66) + (1/3,1/3,1/3)',
                  'codes': 'smallest + one non-square/non-cubic member of each class + synthetic 3-cycle subclass',
                  'deformations': 'None + every name/axis of the class (default-axis call included)',
@@ -95,7 +106,9 @@ BOUNDS = {
                  'pair_deviations': 'n<=4: all 4^n; else all singles and all pairs for every (p,r) when n<=20, '
                                     'pairs for 2 directions per (config, p) when n>20',
                  'bposd': 'all 67 directions; 4 syndromes; channel_update in {False, True}; CSS and deformed '
-                          'object'},
+                          'object',
+                 'session': 'every class of the quick list plus the remaining classes with a deformation, '
+                            'p in {0.001, 0.25, 0.9, 1.0}; same sequences; dyadic grid 2^6'},
 }
 BUDGET_S = {'quick': 900, 'thorough': 5400}
 CHUNK = 1
@@ -103,6 +116,10 @@ CHUNK = 1
 TOL = 1e-12
 PAIR_DIRS = (66, 17)          # indices into directions(): (1/3,1/3,1/3) and (0.1, 0.7, 0.2)-like interior point
 BP_DIRS_BIG = (66, 17, 0, 10, 65, 5, 38)
+SESSION_CLASSES = ['RotatedPlanar2DCode', 'Toric2DCode', 'Color488Code', 'Color666ToricCode', 'Planar3DCode',
+                   'RhombicPlanarCode', 'XCubeCode', SYNTH]
+# two pairs of directions that agree to 4 decimals (what a label / repr with limited precision would show)
+SESSION_DIRS = [(0.2, 0.3, 0.5), (0.20004, 0.3, 0.49996), (0.5, 0.5, 0.0), (0.49996, 0.50004, 0.0)]
 
 
 def directions():
@@ -191,7 +208,18 @@ def cases(tier, seed):
                 out.append(dict(base, part='priors', bp_dirs=bp))
     out.sort(key=lambda c: (c['n'] * (4 if c['part'] == 'sample' else 1), c['cls'], str(c['deformation']), c['pi'],
                             c['part']))
-    return out
+    sess = []
+    if tier == 'quick':
+        scls, spis, g = SESSION_CLASSES, (3, 6), 4
+    else:
+        scls = SESSION_CLASSES + [c for c in F.CLASSES if c not in SESSION_CLASSES and F.deformations(c)]
+        spis, g = (1, 3, 5, 6), 6
+    for cls in scls:
+        size = [2, 2] if cls == SYNTH else SMALL[cls]
+        for pi in spis:
+            sess.append({'part': 'session', 'cls': cls, 'size': size, 'pi': pi, 'n': build_code(cls, size).n,
+                         'grid_log2': g, 'deformation': None})
+    return sess + out
 
 
 # ---------------------------------------------------------------- reference
@@ -855,7 +883,121 @@ def eval_priors(case):
     return res
 
 
+# ---------------------------------------------------------------- part: session
+
+def measure_error(em, code, p, rows, grid_log2):
+    """max over qubits of |preimage measure - reference probability| + unresolved length, and the
+    per-call contract problems, for generate() probed with the script [x]*n."""
+    n = code.n
+    pts, _ = probe_points(rows[0], grid_log2)
+    run = _Run(em, code, p)
+    raw = run.many([[x] * n for x in pts])
+    if run.bad_consumed is not None or run.bad_format is not None:
+        return None, len(pts), {'consumed': run.bad_consumed, 'format': run.bad_format}
+    out = decode_bsf(raw, n)
+    P = np.array(pts)
+    gaps = np.diff(P)
+    same = out[:-1] == out[1:]
+    unresolved = (gaps[:, None] * (~same)).sum(axis=0)
+    meas = np.zeros((n, 4))
+    for o in range(4):
+        meas[:, o] = (gaps[:, None] * (same & (out[:-1] == o))).sum(axis=0) + (1.0 - P[-1]) * (out[-1] == o)
+    merr = np.abs(meas - np.array(rows)).max(axis=1) + unresolved
+    i = int(merr.argmax())
+    weights = (out != 0).sum(axis=1)
+    return float(merr[i]), len(pts), {'qubit': i, 'measure': meas[i].tolist(), 'expected': list(rows[i]),
+                                      'min_weight': int(weights.min()), 'max_weight': int(weights.max())}
+
+
+def eval_session(case):
+    from panqec.error_models import PauliErrorModel
+    res = {'evals': 0, 'nontrivial': 0, 'violations': [], 'samples': [], 'outcomes': [], 'skipped': 0,
+           'extra': {'session_models': 0, 'session_probes': 0, 'violations_total': 0}}
+    cls, size = case['cls'], case['size']
+    p = P_LIST[case['pi']]
+    configs = deformation_configs(cls)
+    seq = [(d, ri) for d in configs for ri in range(len(SESSION_DIRS))]
+    nontrivial = set()
+    outcomes = set()
+
+    def viol(kind, order, pos, d, ri, detail, **more):
+        res['extra']['violations_total'] += 1
+        flags = (kind, more.get('earlier_same_name_other_kwargs'), more.get('earlier_direction_equal_to_4_decimals'))
+        shown = sum(1 for v in res['violations']
+                    if (v['key']['kind'], v['key'].get('earlier_same_name_other_kwargs'),
+                        v['key'].get('earlier_direction_equal_to_4_decimals')) == flags)
+        if shown < 1 and len(res['violations']) < 8:      # one example per (kind, history attributes)
+            k = base_key(dict(case, deformation=d))
+            k.update({'kind': kind, 'part': 'session', 'order': order, 'position': pos,
+                      'r': [round(v, 5) for v in SESSION_DIRS[ri]]})
+            k.update(more)
+            res['violations'].append({'key': k, 'detail': detail})
+
+    for order, models in (('forward', seq), ('reversed', seq[::-1])):
+        code = build_code(cls, size)          # ONE code object and ONE error rate for the whole sequence
+        n = code.n
+        earlier = []                          # (d, ri, rows) of the models already evaluated on this object
+        for pos, (d, ri) in enumerate(models):
+            r = SESSION_DIRS[ri]
+            em = PauliErrorModel(r[0], r[1], r[2], deformation_name=(d[0] if d else None),
+                                 deformation_kwargs=(dict(d[1]) if d else None))
+            rows, tables = reference_rows(code, p, r, d)
+            ref = np.array(rows)
+            # descriptive attributes of the history, for narrow scoping of a finding
+            differs = [e for e in earlier if np.abs(np.array(e[2]) - ref).max() > 1e-9]
+            hist = {'earlier_same_name_other_kwargs': any(
+                        e[0] and d and e[0][0] == d[0] and e[0][1] != d[1] for e in differs),
+                    'earlier_direction_equal_to_4_decimals': any(
+                        e[1] != ri and e[0] == d and all(round(a, 4) == round(b, 4)
+                                                         for a, b in zip(SESSION_DIRS[e[1]], r))
+                        for e in differs)}
+            res['extra']['session_models'] += 1
+            dist = em.probability_distribution(code, p)
+            res['evals'] += 1
+            got = np.array([np.asarray(a, dtype=float) for a in dist]).T
+            if got.shape != (n, 4):
+                viol('distribution_shape', order, pos, d, ri, {'shape': list(got.shape)}, **hist)
+            else:
+                err = np.abs(got - ref)
+                if err.max() > TOL or got.min() < 0 or np.abs(got.sum(axis=1) - 1).max() > TOL:
+                    i = int(np.unravel_index(int(err.argmax()), err.shape)[0])
+                    viol('distribution', order, pos, d, ri,
+                         {'qubit': i, 'got': got[i].tolist(), 'expected': ref[i].tolist(), 'table': tables[i],
+                          'models_before': [[e[0], list(SESSION_DIRS[e[1]])] for e in earlier][-4:]}, **hist)
+            qx, qz = marginals(rows)
+            wx, wz = em.get_weights(code, p)
+            res['evals'] += 1
+            for name, w, q in (('x', np.asarray(wx, dtype=float), qx), ('z', np.asarray(wz, dtype=float), qz)):
+                exp = [llr_ref(v) for v in q]
+                if w.shape != (n,) or not all(math.isfinite(w[i]) and abs(w[i] - exp[i]) <= 1e-9 * max(1.0, abs(exp[i]))
+                                              for i in range(n)):
+                    viol('weights', order, pos, d, ri, {'got': w.tolist()[:8], 'expected': exp[:8]},
+                         which=name, **hist)
+            merr, k, info = measure_error(em, code, p, rows, case['grid_log2'])
+            res['evals'] += k
+            res['extra']['session_probes'] += k
+            if merr is None:
+                viol('variates_consumed' if info['consumed'] else 'output_format', order, pos, d, ri, info, **hist)
+            else:
+                if merr > TOL:
+                    viol('measure', order, pos, d, ri, info, **hist)
+                if p == 1.0 and info['min_weight'] != n:
+                    viol('p1_weight', order, pos, d, ri, info, **hist)
+            if differs:
+                nontrivial.add(digest(cls, size, p, order, pos))
+            outcomes.add(digest(np.round(got, 9).tolist())[:8])
+            earlier.append((d, ri, rows))
+        if not res['samples']:
+            res['samples'].append({'cls': cls, 'p': p, 'order': order,
+                                   'sequence': [[d, list(SESSION_DIRS[ri])] for d, ri in models][:6]})
+    res['nontrivial'] = len(nontrivial)
+    res['outcomes'] = sorted(outcomes)[:50]
+    return res
+
+
 def eval_case(case):
     if case['part'] == 'sample':
         return eval_sample(case)
+    if case['part'] == 'session':
+        return eval_session(case)
     return eval_priors(case)
